@@ -1,0 +1,47 @@
+//go:build verif
+
+package session
+
+import (
+	"time"
+
+	"github.com/nais/wonderwall/internal/crypto"
+	"github.com/nais/wonderwall/pkg/config"
+	openidclient "github.com/nais/wonderwall/pkg/openid/client"
+	openidconfig "github.com/nais/wonderwall/pkg/openid/config"
+)
+
+// NewManagerWithStore builds a Manager over a caller-supplied Store (verification hook).
+func NewManagerWithStore(cfg *config.Config, openidCfg openidconfig.Config, crypter crypto.Crypter, openidClient *openidclient.Client, store Store) Manager {
+	rd := &reader{
+		cfg:           cfg,
+		cookieCrypter: crypter,
+		store:         store,
+	}
+
+	return &manager{
+		reader:    rd,
+		cfg:       cfg,
+		client:    openidClient,
+		openidCfg: openidCfg,
+		store:     store,
+	}
+}
+
+// NewReaderWithStore builds a Reader over a caller-supplied Store (verification hook).
+func NewReaderWithStore(cfg *config.Config, crypter crypto.Crypter, store Store) Reader {
+	return &reader{
+		cfg:           cfg,
+		cookieCrypter: crypter,
+		store:         store,
+	}
+}
+
+// VerifParams exposes the unexported refresh-lock constants (verification hook).
+func VerifParams() map[string]time.Duration {
+	return map[string]time.Duration{
+		"refresh_acquire_lock_retry_interval": refreshAcquireLockRetryInterval,
+		"refresh_acquire_lock_timeout":        refreshAcquireLockTimeout,
+		"refresh_lock_duration":               refreshLockDuration,
+	}
+}
